@@ -67,7 +67,9 @@ TQuery ==
 
 TUpdate ==
     /\ IsEvent("Update")
-    /\ C("same-state-as-run-without-extra-queries", HasTwin => T.twin[step].dig = Ev.dig)
+    \* (an update that opens the history carries `tdig`: the state restricted to the attributes of the twin)
+    /\ C("same-state-as-run-without-extra-queries",
+          HasTwin => T.twin[step].dig = (IF "tdig" \in DOMAIN Ev THEN Ev.tdig ELSE Ev.dig))
     /\ C("no-overspend-at-every-prefix",
           \A k \in 1..Ev.len : BoundOK(granted + CountUpTo(Ev.q, k), n + k))
     /\ dig' = Ev.dig /\ step' = step + 1
